@@ -1,11 +1,12 @@
 \* exhaustive: 3 physical tables (points / points+range keys / range keys only) over levels {0,5,6},
-\* every base placement, <= 3 edits with <= 2 table operations (add / delete / move) each
+\* every base placement, <= 2 edits with <= 2 table operations (add / delete / move) each
+\* (69853 distinct states; the engine generates further scopes: excise/virtual backings, blob files, marks, 3-4 edits)
 SPECIFICATION Spec
 CONSTANTS
   GenCat <- CatPhys3
   GenLevels = {0, 5, 6}
   GenBlobIds = {}
-  MaxEdits = 3
+  MaxEdits = 2
   MaxTabOps = 2
   GenMarks = FALSE
   BugMode = "none"
